@@ -2,7 +2,7 @@ CHECKS = [
     entry("C09", "wire",
           technique="property-based testing (rapid), metamorphic: the same logical trace built through a real Router in two ways (canonical JSON batch vs permuted spans in mixed ingestion encodings and numeric wire types) must get the same sampler outcome from real samplers created by SamplerFactory from a validated rules file; differences are attributed by single-deviation rebuilds",
           quick=dict(checks=6000, budget_s=45),
-          thorough=dict(checks=15000, shards=16, budget_s=420),
+          thorough=dict(checks=40000, shards=16, budget_s=420),
           level_text="Generated traces and sampler configurations (rules with all comparison/string/list operators and datatypes, downstream and top-level DynamicSampler keys incl. root.-prefixed fields) with per-span ingestion path (JSON event/batch, msgpack event/batch, peer hop) and per-number wire form (JSON literal variants, msgpack fixint/int8..64/uint8..64/float32/64), any span order; (rate, reason, key, deterministic keep) compared with the canonical all-JSON build. Exploration: finds encoding/order dependence for generated combinations; does not prove absence.",
           level_note="OTLP ingestion is not driven (husky adds its own fields, so field names differ by construction). The trace is assembled like the collector worker does, not by the InMemCollector itself. Keep is compared only when no coin rule (SampleRate>1) exists."),
 ]
